@@ -88,6 +88,7 @@ class Gen:
     def __init__(self, r, filesize, in_forof=False):
         self.r, self.fs = r, filesize
         self.vars = []
+        self.vbound = {}          # loop variable -> magnitude bound of the values it iterates over
         self.in_forof = in_forof
         self.loop_depth = 0
 
@@ -95,12 +96,12 @@ class Gen:
     def bound(self, e):
         t = e["t"]
         if t == "int": return abs(e["v"])
-        if t in ("filesize",): return self.fs
+        if t in ("filesize",): return max(self.fs, 64)       # the same condition is evaluated on buffers of other sizes too
         if t == "entrypoint": return 4096
         if t == "ext": return 64
-        if t == "var": return 64
+        if t == "var": return self.vbound.get(e["name"], 64)
         if t in ("scount", "scountin"): return 64
-        if t in ("soff",): return self.fs
+        if t in ("soff",): return max(self.fs, 64)
         if t in ("slen",): return 8
         if t == "uint": return (1 << (8 * e["n"]))
         if t in ("neg", "paren"): return self.bound(e["x"])
@@ -265,7 +266,7 @@ class Gen:
             return q
         if c < 0.90 and depth > 0 and not self.in_forof and self.loop_depth < 3:
             e = dict(self.str_set()); e["t"] = "forof"
-            g = Gen(self.r, self.fs, in_forof=True); g.vars = list(self.vars); g.loop_depth = self.loop_depth + 1
+            g = Gen(self.r, self.fs, in_forof=True); g.vars = list(self.vars); g.vbound = dict(self.vbound); g.loop_depth = self.loop_depth + 1
             e["body"] = g.bool_expr(depth - 1)
             return self.quant(e, len(e["set"]))
         if c < 0.97 and depth > 0 and self.loop_depth < 3:
@@ -274,11 +275,14 @@ class Gen:
             if r.random() < 0.6:
                 e["it"] = "range"; e["lo"] = {"t": "int", "v": r.choice([0, 1, 2])}
                 e["hi"] = r.choice([{"t": "int", "v": r.choice([0, 1, 3, 4])}, {"t": "scount", "s": r.choice(STRS)}, {"t": "undef_i"}]) if r.random() < 0.9 else self.int_atom()
+                if self.bound(e["hi"]) > 70000:      # a range over a 32-bit value is a legitimately endless evaluation, not a case
+                    e["hi"] = {"t": "int", "v": 4}
                 n = 4
             else:
                 e["it"] = "enum"
                 e["vals"] = [r.choice([self.int_expr(1), {"t": "int", "v": r.choice([0, 1, 2, self.fs - 1, self.fs, self.fs + 50, 100])}]) for _ in range(r.randint(1, 4))]
                 n = len(e["vals"])
+            self.vbound[var] = max([self.bound(x) for x in e.get("vals", [])] + [self.bound(e["hi"]) if "hi" in e else 0, 64])
             self.vars.append(var); self.loop_depth += 1
             e["body"] = self.bool_expr(depth - 1)
             self.vars.pop(); self.loop_depth -= 1
